@@ -505,7 +505,24 @@ func pa5(c *Ctx, p *Prog, rule string, scope paScope) int {
 			// operands that do not come from the position (constants, package-level tables such as the
 			// castling masks) are fixed sets whose geometry C01.R4 checks; only piece sets can wrap
 			fromPosition := false
-			for v := range backSlice(sh.X, sliceOpts{ThroughLoads: true, ThroughCalls: true}) {
+			// (a value loaded from a package-level table is a fixed set, whatever state picks the entry)
+			stopAtTables := func(x ssa.Value) bool {
+				if l, ok := x.(*ssa.UnOp); ok && l.Op == token.MUL {
+					a := l.X
+					for {
+						if ia, ok := a.(*ssa.IndexAddr); ok {
+							a = ia.X
+							continue
+						}
+						break
+					}
+					if _, isG := a.(*ssa.Global); isG {
+						return true
+					}
+				}
+				return false
+			}
+			for v := range backSlice(sh.X, sliceOpts{ThroughLoads: true, ThroughCalls: true, Stop: stopAtTables}) {
 				switch x := v.(type) {
 				case *ssa.FieldAddr, *ssa.Field, *ssa.Parameter:
 					fromPosition = true
